@@ -20,11 +20,11 @@ NA = {
 
 CHECKS = {
  "C07": dict(engine="detect-sim", cat="exploration", ref="§4.1",
-   text="Seeded exploration of the sequential workflows under the simulator with the byte source and (mostly) the per-sample test results owned by the harness: result matrices are aimed at the decision boundaries (pass count = threshold-1/threshold for every item, uniformity P_T just above/below 1e-4, unjudged items failing, two violators, edge-valued Q), verdict and named item are compared with an independent executable decision-rule model, every judged buffer is matched against the stream, and each case is repeated with different bytes after the s samples; the NumCPU seam, source carriers (pipe, file, in-memory, bufio), EOF delivered with the last bytes and earlier calls in the same run (healthy or aborted) are varied as well. Sampled, not exhaustive: that is the right level because the space (all s x items matrices) is only reachable by aimed sampling.",
+   text="Seeded exploration of the sequential workflows under the simulator with the byte source and (mostly) the per-sample test results owned by the harness: result matrices are aimed at the decision boundaries (pass count = threshold-1/threshold for every item, uniformity P_T just above/below 1e-4, unjudged items failing, two violators, edge-valued Q), verdict and named item are compared with an independent executable decision-rule model, every judged buffer is matched against the stream, and each case is repeated with different bytes after the s samples; the NumCPU seam, source carriers (pipe, file, in-memory, bufio), EOF delivered with the last bytes and earlier calls in the same run (healthy or aborted, also the same detection on the same stream) are varied as well; streams may deliver one sample twice in a row. Sampled, not exhaustive: that is the right level because the space (all s x items matrices) is only reachable by aimed sampling.",
    note="trusts the harness's DecisionModel/GammaQ (closed form for half-integer shapes), the registry seam (TestMethodArr) and that scripted results are self-consistent (Pass <=> P>=0.01); errors inside Threshold/ThresholdQ for other s are C12's subject",
    tech="deterministic simulation: owned io.Reader + scripted registry runners, executable reference model of the GM/T decision rule, stream/history accounting"),
  "C08": dict(engine="detect-sim", cat="exploration", ref="§4.2",
-   text="Each Fast workflow runs inside one synctest bubble with every worker a task; a seeded controller (random / PCT / sticky / first / last policies, worker count 1..64) decides which task proceeds at every channel, WaitGroup, atomic, mutex, pool, device-read and runner call; part of the cases hand the stream through another kind of source object (in-memory reader with ReaderAt/Seeker, file, pipe, bufio; possibly positioned behind a consumed header), are preceded by an earlier detection in the same run (healthy or cut short, on another or the same source object), or meet a transient source error. Verdict and named item are compared with the sequential workflow on the same stream and with the decision-rule model (12 items for the periodic variant), and the (item, sample) history must be exactly the s samples. The race clause is checked by an auxiliary race monitor: the pristine packages under -race with real goroutines on 1/2/4/16 CPUs.",
+   text="Each Fast workflow runs inside one synctest bubble with every worker a task; a seeded controller (random / PCT / sticky / first / last policies, worker count 1..64) decides which task proceeds at every channel, WaitGroup, atomic, mutex, pool, device-read and runner call; part of the cases hand the stream through another kind of source object (in-memory reader with ReaderAt/Seeker, file, pipe, bufio; possibly positioned behind a consumed header), are preceded by an earlier detection in the same run (healthy or cut short, on another or the same source object), or meet a transient source error. Verdict and named item are compared with the sequential workflow on the same stream and with the decision-rule model (12 items for the periodic variant), and the (item, sample) history must be exactly the s samples. The race clause is checked by an auxiliary race monitor: the pristine packages under -race with real goroutines on 1/2/4/16 CPUs, including runs of the real test functions whose first batch of samples enters every item in lockstep.",
    note="scheduling points exist where the instrumenter recognises a synchronisation operation; between two points a task is atomic, so torn non-atomic updates are visible only to the race monitor, whose schedule is not controlled",
    tech="deterministic simulation with seeded schedule search (instrumented scheduling points + synctest quiescence), differential oracle against the sequential workflow; -race monitor as auxiliary"),
  "C09": dict(engine="detect-sim", cat="fault_enumeration", ref="§4.3",
@@ -40,19 +40,19 @@ CHECKS = {
    note="trusts the harness's PokerModel and GammaQ; verdicts within 1e-9 of P=0.01 accept either answer",
    tech="deterministic simulation of the source (read-size histories, byte accounting) + reference poker model"),
  "C14": dict(engine="detect-sim", cat="fault_enumeration", ref="§4.7",
-   text="Stuck-at and short-cycle streams are injected as device faults from byte 0 with the real test runners: all 256 constant bytes and periods 2..64 bytes (random, single-one, single-zero, alternating, low-weight contents) through the 20000-bit workflows, targeted single-bit-per-period streams and a sample of others through PowerOn(Fast) (Factory in thorough), Fast variants under seeded schedules, and all-zero/all-one through SingleDetect at every length 16..4096 (thorough) plus powers of two +-1 up to 2^24 and multiples of 65536, partly after an earlier healthy detection; worker counts 1..64. A pass, a panic or a hang is a violation.",
+   text="Stuck-at and short-cycle streams are injected as device faults from byte 0 with the real test runners: all 256 constant bytes and periods 2..64 bytes (random, single-one, single-zero, alternating, low-weight contents) through the 20000-bit workflows, targeted single-bit-per-period streams and a sample of others through PowerOn(Fast) (Factory in thorough), Fast variants under seeded schedules, and all-zero/all-one through SingleDetect at every length 16..4096 (thorough) plus powers of two +-1 up to 2^24 and multiples of 65536, partly after an earlier healthy detection; worker counts 1..64; the source may be a self-locking device (a sync.Locker). A pass, a panic or a hang is a violation. An auxiliary race monitor runs PeriodDetectFast with the real tests on real threads on such streams (pristine packages, -race, 1/2/4/16 CPUs).",
    note="the constant family is enumerated completely, period contents are sampled; within one run real runner results are memoised per distinct buffer (assumes runners are functions of their input)",
-   tech="deterministic simulation with device-fault injection (stuck-at / short-cycle source), real runners, seeded schedules for Fast variants"),
+   tech="deterministic simulation with device-fault injection (stuck-at / short-cycle source), real runners, seeded schedules for Fast variants; -race monitor as auxiliary"),
  "C18": dict(engine="lib-sim", cat="exploration", ref="§4.8",
-   text="2..8 (thorough: ..64) tasks call a mix of the fifteen runners, parameterised entry points and round functions on shared and distinct inputs under a quantum-preemptive seeded scheduler (a tick at every loop head of the library decides where a task is suspended); results must be bit-identical to solitary calls, inputs unchanged (also behind the slice: inputs are adjacent windows of one buffer), second call identical; reference results come from fresh processes; the NumCPU seam is varied 1..24. The race clause runs the same workloads on the pristine packages under -race.",
+   text="2..8 (thorough: ..64) tasks call a mix of the fifteen runners, parameterised entry points and round functions on shared and distinct inputs under a quantum-preemptive seeded scheduler (a tick at every loop head of the library decides where a task is suspended); results must be bit-identical to solitary calls, inputs unchanged (also behind the slice: inputs are adjacent windows of one buffer), second call identical; part of the runs are call histories of one or two callers presenting successive inputs in one buffer of their own refilled in place; every run stands for a process of its own (a sync.Once completed in an earlier run runs again); reference results come from fresh processes; the NumCPU seam is varied 1..24. The race clause runs the same workloads on the pristine packages under -race.",
    note="preemption happens at loop heads only; torn updates are left to the race monitor",
    tech="deterministic simulation: quantum-preemptive seeded scheduling of instrumented library code, solitary-call oracle; -race monitor as auxiliary"),
  "C13": dict(engine="tool-sim", cat="exploration", ref="§4.6",
-   text="The real main of rddetector runs in a synctest bubble on a per-run scratch tree (nested directories, .bin/.dat, decoys) with worker count 1..64 and a seeded schedule over walker, workers, row senders and writer; the report read when main returns must be the header plus exactly one complete row per sample file, every value equal at 6 decimals to the library value for the test and parameter the header column names. Trees include shared base names, 65-144 files, an older report at the output path, default -o/-n. The same plan also runs against the pristine tool built with -race as real OS processes on 1/2/4/16 CPUs (auxiliary).",
+   text="The real main of rddetector runs in a synctest bubble on a per-run scratch tree (nested directories, .bin/.dat, decoys) with worker count 1..64 and a seeded schedule over walker, workers, row senders and writer; the report read when main returns must be the header plus exactly one complete row per sample file, every value equal at 6 decimals to the library value for the test and parameter the header column names. Trees include shared base names, 65-144 files, empty directories, sample contents that look like text, an older report at the output path, default -o/-n. The same plan also runs against the pristine tool built with -race as real OS processes on 1/2/4/16 CPUs (auxiliary).",
    note="the library is the value oracle (as the property states); the file system is real; 10^8-bit scale is exercised structurally only",
    tech="deterministic simulation of the tool's goroutine pipeline (seeded schedules) with a header-driven column model; -race real-scheduler monitor as auxiliary"),
  "C20": dict(engine="tool-sim", cat="exploration", ref="§4.9",
-   text="The real main of rdgen runs in a synctest bubble with a seeded entropy source, worker count and schedule; when main returns the requested directory must hold exactly random0..random(s-1).bin of n/8 bytes, pairwise different, nothing elsewhere, and rddetector's sample counting must accept it. Output paths include percent signs, spaces, non-ASCII, trailing slash, a directory used before; sizes up to 2^23 bits. The same plan also runs against the pristine tool built with -race as real OS processes (auxiliary).",
+   text="The real main of rdgen runs in a synctest bubble with a seeded entropy source, worker count and schedule; when main returns the requested directory must hold exactly random0..random(s-1).bin of n/8 bytes, pairwise different, nothing elsewhere, and rddetector's sample counting must accept it. Output paths include percent signs, spaces, non-ASCII, trailing slash, dot-named and .bin-named directories, a directory used before; sizes up to 10^8 bits with up to 8 samples at once. The same plan also runs against the pristine tool built with -race as real OS processes (auxiliary); there the pristine rddetector binary is then run on the directory of small 20000-bit runs and must report s rows.",
    note="file system is real (scratch directory per run); entropy is a seeded stub",
    tech="deterministic simulation of the generator's worker pool (seeded schedules, seeded entropy) with a file-system post-state model; -race real-scheduler monitor as auxiliary"),
 }
